@@ -11,7 +11,7 @@ from .._backends.base import SOCKET_OPTION, AsyncNetworkBackend, AsyncNetworkStr
 from .._exceptions import ConnectError, ConnectTimeout
 from .._models import Origin, Request, Response
 from .._ssl import default_ssl_context
-from .._synchronization import AsyncLock
+from .._synchronization import AsyncLock, AsyncShieldCancellation
 from .._trace import Trace
 from .http11 import AsyncHTTP11Connection
 from .interfaces import AsyncConnectionInterface
@@ -153,7 +153,14 @@ class AsyncHTTPConnection(AsyncConnectionInterface):
                         "timeout": timeout,
                     }
                     async with Trace("start_tls", logger, request, kwargs) as trace:
-                        stream = await stream.start_tls(**kwargs)
+                        try:
+                            stream = await stream.start_tls(**kwargs)
+                        except BaseException as exc:
+                            # The network backends close the stream if the
+                            # handshake fails, but not if it is cancelled.
+                            with AsyncShieldCancellation():
+                                await stream.aclose()
+                            raise exc
                         trace.return_value = stream
                 return stream
             except (ConnectError, ConnectTimeout):
